@@ -13,7 +13,7 @@ let init () =
          | Some a, Some b ->
              let start = int_of_string start and count = int_of_string count and stride = int_of_string stride in
              (* B::from(c): the provided conversion of the generated pair list, or core's reflexive From<T> for T *)
-             let f : (coq_Z -> coq_Z) option =
+             let f =
                if int_of_z a.c_id = int_of_z b.c_id then Some (fun c -> c)
                else (match find_pair a b with Some fam -> Some (convert fam a b) | None -> None) in
              (match f with
